@@ -1,4 +1,5 @@
 import Dashu.Proofs.Ratio.Extra
+import Dashu.Proofs.Ratio.Const
 /-
   C04 — Rational arithmetic is exact and RBig stays in lowest terms.
 
@@ -59,6 +60,26 @@ theorem relaxed_from_parts_signed (n d : Int) :
     (d = 0 → xFromPartsSigned n d = .error .divideByZero) ∧
     (d ≠ 0 → ∃ r, xFromPartsSigned n d = .ok r ∧ RelaxedInv r ∧ r.val = (n : Rat) / d) :=
   xFromPartsSigned_spec n d
+
+/-- `RBig::from_parts_const`: the const Euclid loop reduces to lowest terms (any magnitudes) -/
+theorem rbig_from_parts_const (neg : Bool) (n d : Nat) :
+    (d = 0 → rFromPartsConst neg n d = .error .divideByZero) ∧
+    (0 < d → ∃ r, rFromPartsConst neg n d = .ok r ∧ Reduced r ∧
+      r.val = (if neg then -((n : Rat) / d) else (n : Rat) / d)) :=
+  rFromPartsConst_spec neg n d
+
+/-- `Relaxed::from_parts_const`: exactly the common power of two is removed -/
+theorem relaxed_from_parts_const (neg : Bool) (n d : Nat) :
+    (d = 0 → xFromPartsConst neg n d = .error .divideByZero) ∧
+    (0 < d → ∃ r, xFromPartsConst neg n d = .ok r ∧ RelaxedInv r ∧
+      r.val = (if neg then -((n : Rat) / d) else (n : Rat) / d) ∧
+      (n ≠ 0 → ∃ k, n = r.num.natAbs * 2 ^ k ∧ d = r.den * 2 ^ k)) :=
+  xFromPartsConst_spec neg n d
+
+-- non-vacuity: -6/4 is reduced to a pair of value -3/2
+example : ∃ r, rFromPartsConst true 6 4 = .ok r ∧ Reduced r ∧ r.val = -((6 : Rat) / 4) := by
+  obtain ⟨r, h1, h2, h3⟩ := (rbig_from_parts_const true 6 4).2 (by decide)
+  exact ⟨r, h1, h2, by simpa using h3⟩
 
 -- ------------------------------------------------------------------ addition through gcd(b, d)
 
@@ -294,5 +315,26 @@ theorem history_values (ops : List Op) (env : List Reg) (henv : ∀ r ∈ env, r
 example : (run [.bin .add 0 1, .bin .mul 2 2, .bin .div 3 0, .un .inv 4, .intR .add 5 (-5)]
     [⟨.R, ⟨3, 4⟩⟩, ⟨.R, ⟨-5, 6⟩⟩]).1.map (·.q) =
     [⟨3, 4⟩, ⟨-5, 6⟩, ⟨-1, 12⟩, ⟨1, 144⟩, ⟨1, 108⟩, ⟨108, 1⟩, ⟨103, 1⟩] := by decide
+
+-- ------------------------------------------------------------------ non-vacuity: concrete values meeting the hypotheses
+
+example : Nat.gcd (6 : Int).natAbs 8 ∣ 4 ∧ reduceWithHint ⟨6, 8⟩ 4 = .ok ⟨3, 4⟩ := by decide
+example : reduce2 ⟨12, 8⟩ = .ok ⟨3, 2⟩ := by simp [reduce2, tz]; decide
+example : Reduced ⟨-3, 4⟩ ∧ inv ⟨-3, 4⟩ = .ok ⟨-4, 3⟩ ∧ inv ⟨0, 1⟩ = .error .divideByZero := by decide
+example : Reduced ⟨-2, 3⟩ ∧ pow ⟨-2, 3⟩ 3 = ⟨-8, 27⟩ ∧ sqr ⟨-2, 3⟩ = ⟨4, 9⟩ := by decide
+example : R.mulInt ⟨3, 4⟩ 6 = .ok ⟨9, 2⟩ ∧ R.divInt ⟨3, 4⟩ (-6) = .ok ⟨-1, 8⟩ ∧
+    R.intDiv 6 ⟨-3, 4⟩ = .ok ⟨-8, 1⟩ ∧ R.divInt ⟨3, 4⟩ 0 = .error .divideByZero := by decide
+example : Reduced (R.addSubInt true ⟨3, 4⟩ 2) ∧ R.addSubInt true ⟨3, 4⟩ 2 = ⟨-5, 4⟩ ∧
+    R.intSub 2 ⟨3, 4⟩ = ⟨5, 4⟩ := by decide
+example : trunc ⟨-7, 2⟩ = .ok (-3) ∧ floor ⟨-7, 2⟩ = .ok (-4) ∧ ceil ⟨-7, 2⟩ = .ok (-3) ∧
+    Ratio.round ⟨-7, 2⟩ = .ok (-4) ∧ fract ⟨-7, 2⟩ = .ok ⟨-1, 2⟩ := by decide
+example : R.remEuclid ⟨-10, 9⟩ ⟨-15, 4⟩ = .ok ⟨95, 36⟩ ∧ R.divEuclid ⟨-10, 9⟩ ⟨-15, 4⟩ = .ok 1 := by
+  decide
+example : RelaxedInv ⟨9, 6⟩ ∧ RelaxedInv ⟨15, 9⟩ ∧ Reduced ⟨3, 2⟩ ∧ Reduced ⟨5, 3⟩ ∧
+    (⟨9, 6⟩ : Q).val = (⟨3, 2⟩ : Q).val ∧ (⟨15, 9⟩ : Q).val = (⟨5, 3⟩ : Q).val := by
+  refine ⟨by decide, by decide, by decide, by decide, ?_, ?_⟩ <;> norm_num [Q.val_def]
+example : ∀ r ∈ [(⟨.R, ⟨3, 4⟩⟩ : Reg), ⟨.X, ⟨9, 6⟩⟩], r.Inv := by decide
+example : rFromPartsSigned 6 (-4) = .ok ⟨-3, 2⟩ ∧ rFromParts 5 0 = .error .divideByZero := by decide
+
 
 end Dashu.Props.C04
